@@ -347,7 +347,7 @@ pub fn run_prop(ctx: &Ctx) {
     let all = [Format::Json, Format::MessagePack, Format::Bincode];
     match ctx.tier {
         Tier::Quick => {
-            run_generated(ctx, "checkpoint", 2_400, case_strategy, |c: &CkCase, case| oracle(ctx, c, &[c.format], case));
+            run_generated(ctx, "checkpoint", 8_000, case_strategy, |c: &CkCase, case| oracle(ctx, c, &[c.format], case));
         }
         Tier::Thorough => {
             run_generated(ctx, "checkpoint", 60_000, case_strategy, |c: &CkCase, case| oracle(ctx, c, &all, case));
